@@ -463,6 +463,14 @@ class Interp:
                 return h.new_list(list(v)) if isinstance(v, list) else v
             if e.id in ('tuple', 'str', 'int', 'list', 'dict', 'bytes', 'set', 'frozenset') or (e.id[:1].isupper() and e.id not in env):
                 return ('class', e.id)
+            # a name the module imports from elsewhere (function, class, constant of another module): an opaque value that
+            # can be stored and compared, not called
+            for mod_ in (h.module.mods if hasattr(h.module, 'mods') else [h.module]):
+                tree_ = getattr(mod_, 'tree', None)
+                for st_ in (tree_.body if tree_ is not None else []):
+                    for n_ in ([st_] if isinstance(st_, ast.ImportFrom) else [x for x in ast.walk(st_) if isinstance(x, ast.ImportFrom)] if isinstance(st_, (ast.Try, ast.If)) else []):
+                        if any((a_.asname or a_.name) == e.id for a_ in n_.names):
+                            return ('extern', '%s.%s' % (n_.module, e.id))
             raise AnalysisError('heap model: unbound name %s' % e.id)
         if isinstance(e, ast.Attribute) and isinstance(e.value, ast.Name) and e.value.id == 'string' and 'string' not in env:
             from .consteval import _STRING_CONSTS
